@@ -413,7 +413,7 @@ HAND = ["", "WEBVTT", "WEBVTT\n", "\n", "WEBVTT\n\n00:01.000 --> 00:02.000\n", "
         "WEBVTT\n\n100:00:01.000 --> 100:59:59.999\nx\n", "WEBVTT\n\n00:01.000 x 00:02.000 -->\nx\n", "WEBVTT\n\nNOTE\n00:01.000 --> 00:02.000\nx\n",
         "WEBVTT\n\n00:00.000 --> 00:02.000\n<00:01.000>a<00:01.500>b\n", "WEBVTT\n\n00:01.000 --> 00:02.000\n&#1;<c.x>y</c>&#1;<v Bob>z\n",
         "WEBVTT\n\n00:01.000 --> 00:02.000\nline\\n\\rwith raw escapes\n", "WEBVTT\n\n00:01.000 --> 00:02.000 line:-1\nx\n\n00:01.000 --> 00:02.000 line:-1\ny\n",
-        "WEBVTT\n\n00:01.000 --> 00:02.000\n<v Tom &amp; Jerry>hello</v>\n", "WEBVTT\n\n00:01.000 --> 00:02.000\n<b><ruby>a<rt>b</rt></ruby></b>\n"]
+        "WEBVTT\n\n00:01.000 --> 00:02.000\n<v Tom &amp; Jerry>hello</v>\n", "WEBVTT\n\n00:01.000 --> 00:02.000\n&#xe9;<lang \n", "WEBVTT\n\n00:01.000 --> 00:02.000\n<lang >x</lang><lang\ten  US >y\n", "WEBVTT\n\n00:01.000 --> 00:02.000\n<b><ruby>a<rt>b</rt></ruby></b>\n"]
 
 
 # ------------------------------------------------------------------------------- writer stream
@@ -731,7 +731,9 @@ def main():
     for _, sh in [(k, s) for k, _, s in files if k != "tok"]:
         for info, _ in sh:
             o = info["o"]; out_hist["raised " + o[1] if o[0] == "raised" else "ok"] += 1
-    distinct = len({x[0] for x in tok_cases}) + len(set(texts)) + len(set(mut)) + len({w[0] for w in written})
+    # distinct inputs that are non-trivial: files holding at least one timing line, cue texts holding markup or a reference
+    distinct = len({x[0] for x in tok_cases if "<" in x[0] or "&" in x[0]}) + \
+        len({t for t in set(texts) | set(mut) | {w[0] for w in written} if "-->" in t})
     run.cov.update(evaluations=n_eval, distinct_nontrivial=distinct,
                    rule="grammar-derived WebVTT files (header variants, NOTE/STYLE/REGION blocks, cues with/without identifier and hours, "
                         f"settings taken from a shuffled enumeration of the {N_COMBOS} combinations of line {{-3,-1,0,1,5,0%,50%,100%}} x alignment, "
@@ -740,7 +742,8 @@ def main():
                         "re-printed by S inside Coq; mutated copies, hand-written malformed files and the bundled .vtt corpus (model = code "
                         "only); outputs of ttconv.vtt.writer.from_model over random documents built with the model API under its 8 "
                         "configurations (model = code, and cues written = cues read); cue texts and mutated cue texts through the tokenizer. "
-                        "distinct_nontrivial = number of distinct input texts.",
+                        "distinct_nontrivial = number of distinct file texts containing a timing line plus distinct cue texts containing markup or a "
+                        "character reference (measured).",
                    samples=[dict(file=texts[0][:400]), dict(cue_text=cue_texts[-1]), dict(written=written[0][0][:300])],
                    files=dict(grammar=len(gram_cases), mutated_and_corpus=len(mut_cases), corpus=len(corpus), corpus_skipped=corpus_skipped, writer_outputs=len(wr_cases), cue_texts=len(tok_cases)),
                    cues=ncues, setting_combinations_covered=len(combos_seen), setting_combinations_total=N_COMBOS,
